@@ -63,6 +63,12 @@ where
         self.yielded_counter.fetch_and_add(num_yielded)
     }
 
+    /// Marks the iteration as completed; to be called once the wrapped iterator has returned None.
+    #[inline(always)]
+    pub(crate) fn complete(&self) {
+        self.completed.store(true, atomic::Ordering::SeqCst);
+    }
+
     /// Returns a guard to be kept alive while the wrapped iterator is being used.
     #[inline(always)]
     pub(crate) fn complete_on_panic(&self) -> CompleteOnPanic<'_> {
@@ -183,9 +189,13 @@ where
                 .collect::<Vec<_>>();
             drop(guard);
 
+            if buffer.len() < n {
+                // the wrapped iterator has returned None: it must not be polled again
+                self.complete();
+            }
+
             match buffer.len() {
                 0 => {
-                    self.completed.store(true, atomic::Ordering::SeqCst);
                     let older_count = self.progress_yielded_counter(n);
                     assert_eq!(older_count, begin_idx);
                     None
